@@ -391,6 +391,44 @@ pub fn run(r: &mut Runner) {
         });
     }
     {
+        // generic stream: full-size mantissas in all words, every entry point
+        let n: u64 = if quick { 1_000_000 } else { 100_000_000 };
+        r.notes.push(format!("generic stream: {} operand pairs of a fixed Weyl sequence (full 52-bit fractions in all four words, exponents over [2^-1000, 2^1000], exponent offset -3..3) x every unary and binary entry point", n));
+        let chunk = 1u64 << 14;
+        let (un3, bin3) = (un.clone(), bin.clone());
+        r.par("depth 1: generic stream, all entry points", (n / chunk) as usize, n, |c, l| {
+            for i in (c as u64 * chunk)..((c as u64 + 1) * chunk) {
+                let a = match tfref::alpha::generic_dd(i, 101, -997, 996) {
+                    Some(a) => a,
+                    None => continue,
+                };
+                let ea = crate::grid::exp_of(a[0]);
+                let d = (i % 7) as i32 - 3;
+                let b = match tfref::alpha::generic_dd(i, 2000 + (i % 13), ea + d, ea + d) {
+                    Some(b) => b,
+                    None => continue,
+                };
+                let mut k = 0u64;
+                for &op in un3.iter() {
+                    if op.is_math() && i % 4 != 0 {
+                        continue;
+                    }
+                    let (v, _) = judge(op, a, [0.0, 0.0]);
+                    rec.record(l, (1u64 << 54) + i * 128 + k, v);
+                    k += 1;
+                }
+                for &op in bin3.iter() {
+                    if op.is_math() && i % 4 != 0 {
+                        continue;
+                    }
+                    let (v, _) = judge(op, a, b);
+                    rec.record(l, (1u64 << 54) + i * 128 + k, v);
+                    k += 1;
+                }
+            }
+        });
+    }
+    {
         // integer sources
         let ints: Vec<u128> = {
             let mut v: Vec<u128> = tfref::alpha::run_bounded_128(if quick { 3 } else { 4 });
